@@ -42,7 +42,7 @@ class Sigs(dict):
     pass
 
 
-def regenerate(rep, pid, drv_cpp, defines, headers, out_of_scope, sigs, scalar="float"):
+def regenerate(rep, pid, drv_cpp, defines, headers, out_of_scope, sigs, scalar="float", fn_name="vdrv_dispatch"):
     """Run the translator on /repo's current tree; write Gen/<pid>.lean, Gen/<pid>Dispatch.lean and
     harness/gen/<pid>_dispatch.inc when they changed. Returns a failure dict (broken tie) or None."""
     import cpp2lean as C
@@ -53,16 +53,16 @@ def regenerate(rep, pid, drv_cpp, defines, headers, out_of_scope, sigs, scalar="
     ns = "RkVerif.Gen." + pid
     text, meta, errors, tr = C.generate(os.path.join(core.ROOT, drv_cpp), os.path.join(tmp, pid + ".lean"),
                                         ns, core.REPO, inc, list(defines), scalar, struct_names.names(scalar), tmpdir=tmp)
-    rep.coverage["translated_defs"] = sum(1 for m in meta if m["kind"] == "def")
-    rep.coverage["translated_wrappers"] = len(tr.signatures)
+    rep.coverage["translated_defs"] = rep.coverage.get("translated_defs", 0) + sum(1 for m in meta if m["kind"] == "def")
+    rep.coverage["translated_wrappers"] = rep.coverage.get("translated_wrappers", 0) + len(tr.signatures)
     if errors:
         return dict(kind="translator-unsupported", errors=errors,
                     note="the current source uses a construct outside the translator's subset; the model cannot be regenerated")
     changed = write_if_changed("lean/RkVerif/Gen/%s.lean" % pid, text)
-    l, c = C.emit_dispatch(tr, ns, ns)
+    l, c = C.emit_dispatch(tr, ns, ns, fn_name=fn_name)
     write_if_changed("lean/RkVerif/Gen/%sDispatch.lean" % pid, l)
     write_if_changed("harness/gen/%s_dispatch.inc" % pid.lower(), c)
-    rep.coverage["model_regenerated_differs_from_snapshot"] = bool(changed)
+    rep.coverage["model_regenerated_differs_from_snapshot"] = bool(changed) or rep.coverage.get("model_regenerated_differs_from_snapshot", False)
     sigs.clear()
     sigs.update(tr.signatures)
     sigs["__fields__"] = dict(tr.struct_fields)
